@@ -35,6 +35,32 @@ def fold(t):
     return r
 
 
+def elem_index(t):
+    """the element index of an address folded to IDX/DEL/OLD/BASE form: v[i] through the slice view, or BASE + i * size_of::<T>()
+    computed on the raw pointer (`as_mut_ptr().add(i)`, `cur.sub(del)`)"""
+    if not isinstance(t, tuple) or not t:
+        return None
+    if t[0] == 'elem' and t[1] == BASE:
+        return t[3]
+    if t[0] == 'addr' and t[1][0] == 'deref':
+        t = t[1][1]                     # &mut *p
+    d, c = lin(t)
+    if c != 0 or d.get(BASE) != 1:
+        return None
+    idx = {}
+    for k, v in d.items():
+        if k == BASE:
+            continue
+        if k[0] == 'app' and k[1] == 'mul' and SZ in k[2:]:
+            o = [x for x in k[2:] if x != SZ]
+            if len(o) != 1:
+                return None
+            idx[o[0]] = idx.get(o[0], 0) + v
+        else:
+            return None
+    return from_lin(idx, 0)
+
+
 def body_of(db, pred):
     for b in db.fn_bodies():
         if pred(b):
@@ -101,8 +127,15 @@ def check(ctx, config, rule):
                         none_edges.append(e)
         clause('next', 'the scan stops exactly when idx == old_len', len(none_edges) == 1, '', b.get('span'))
         sls = [e for e in ev if e.kind == 'slice']
-        clause('next', 'the element window is from_raw_parts_mut(BASE, old_len)', len(sls) == 1 and fold(sls[0].args[0]) == BASE and fold(sls[0].args[1]) == OLD)
-        clause('next', 'the predicate sees &mut v[idx]', len(uc) == 1 and fold(uc[0].args[0]) == ('elem', BASE, OLD, IDX), show(fold(uc[0].args[0]))[:80] if uc else '')
+        ptr_form = not sls and len(uc) == 1 and elem_index(fold(uc[0].args[0])) is not None
+        at = lambda a, want: fold(a) == ('elem', BASE, OLD, want) or (ptr_form and elem_index(fold(a)) is not None and leq(elem_index(fold(a)), want))
+        if ptr_form:
+            # no slice view: the elements are addressed as BASE + i * size_of::<T>(); the window is what the scan guard leaves
+            okw = any(tuple(fold(x) if isinstance(x, tuple) else x for x in f) in (('ne', IDX, OLD), ('ne', OLD, IDX), ('lt', IDX, OLD)) for f in uc[0].state.facts)
+            clause('next', 'the element window is from_raw_parts_mut(BASE, old_len)', okw)
+        else:
+            clause('next', 'the element window is from_raw_parts_mut(BASE, old_len)', len(sls) == 1 and fold(sls[0].args[0]) == BASE and fold(sls[0].args[1]) == OLD)
+        clause('next', 'the predicate sees &mut v[idx]', len(uc) == 1 and at(uc[0].args[0], IDX), show(fold(uc[0].args[0]))[:80] if uc else '')
         st = {k: [e for e in ev if e.kind == 'store' and e.lv[0] == 'fld' and e.lv[2].endswith('DrainFilter.' + k)] for k in ('panic_flag', 'idx', 'del')}
         evs = r.events
         if uc:
@@ -115,12 +148,12 @@ def check(ctx, config, rule):
         okd = len(dl) == 1 and leq(fold(dl[0].val), app('add', DEL, C(1))) and any(f[0] == 'true' and '<callable>' in repr(f[1]) for f in dl[0].state.facts)
         clause('next', 'del := del + 1 exactly when the predicate said drain', okd)
         rd = [e for e in ev if e.kind == 'call' and (e.callee or '').endswith('ptr::read')]
-        clause('next', 'a drained element is read out of v[idx] (the index the predicate saw)', len(rd) == 1 and fold(rd[0].args[0]) == ('elem', BASE, OLD, IDX) and any(f[0] == 'true' and '<callable>' in repr(f[1]) for f in rd[0].state.facts))
+        clause('next', 'a drained element is read out of v[idx] (the index the predicate saw)', len(rd) == 1 and at(rd[0].args[0], IDX) and any(f[0] == 'true' and '<callable>' in repr(f[1]) for f in rd[0].state.facts))
         cp = [e for e in ev if e.kind == 'copy']
-        okc = len(cp) == 1 and cp[0].callee == 'copy_nonoverlapping' and fold(cp[0].args[0]) == ('elem', BASE, OLD, IDX) and cp[0].args[2] == C(1)
+        okc = len(cp) == 1 and cp[0].callee == 'copy_nonoverlapping' and at(cp[0].args[0], IDX) and cp[0].args[2] == C(1)
         if okc:
             d = fold(cp[0].args[1])
-            okc = d[0] == 'elem' and d[1] == BASE and leq(d[3], app('sub', IDX, DEL))
+            okc = (d[0] == 'elem' and d[1] == BASE and leq(d[3], app('sub', IDX, DEL))) or (ptr_form and elem_index(d) is not None and leq(elem_index(d), app('sub', IDX, DEL)))
         clause('next', 'a kept element moves from v[idx] to v[idx - del], one element', okc)
         if cp:
             fs = {tuple(fold(x) if isinstance(x, tuple) else x for x in f) for f in cp[0].state.facts}
